@@ -727,6 +727,10 @@ func (g *G) Opaquify(d *DNode) *DNode {
 			count++
 			// depending on the document, replacements repeat the previous type: two values of one (possibly
 			// uncomparable) Go type are what a path-vs-path comparison has to cope with
+			if !isLeaf && g.chance("wrapsub", 50) {
+				// the sub-document stays what it is, behind a pointer / an Accessor / as raw JSON text
+				return Wrap(WrapTags[g.intn("wraptag", len(WrapTags))], n)
+			}
 			if last == "" || g.chance("newtag", newTagPct) {
 				last = OpaqueTags[g.intn("tag", len(OpaqueTags))]
 			}
@@ -740,6 +744,9 @@ func (g *G) Opaquify(d *DNode) *DNode {
 	d = walk(d, 0)
 	if g.chance("opaqueroot", 8) {
 		// the whole document is not decoded JSON
+		if g.chance("wraproot", 50) {
+			return Wrap(WrapTags[g.intn("wraproottag", len(WrapTags))], d)
+		}
 		return Opaque(OpaqueTags[g.intn("roottag", len(OpaqueTags))])
 	}
 	if count == 0 {
